@@ -25,6 +25,10 @@ pub enum CapsKind {
     WindowsCapture,
     WithUnknown,
     WithZeroLenBody,
+    /// the Windows list whose input capability set does not announce INPUT_FLAG_SCANCODES
+    InputWithoutScancodes,
+    /// the Windows list without any input capability set
+    NoInputCapability,
 }
 
 /// how the server answers the final CredSSP round (pubKeyAuth echo)
@@ -523,7 +527,7 @@ impl RefServer {
     fn caps(&self) -> Vec<CapSet> {
         match self.p.caps {
             CapsKind::Minimal => share::minimal_caps(),
-            CapsKind::WindowsCapture | CapsKind::WithUnknown | CapsKind::WithZeroLenBody => {
+            CapsKind::WindowsCapture | CapsKind::WithUnknown | CapsKind::WithZeroLenBody | CapsKind::InputWithoutScancodes | CapsKind::NoInputCapability => {
                 let cap = share::windows_capture_demand_active();
                 let (_, _, mut caps, _) = share::parse_demand_active_body(&cap).expect("embedded capture");
                 if self.p.caps == CapsKind::WithUnknown {
@@ -532,6 +536,14 @@ impl RefServer {
                 }
                 if self.p.caps == CapsKind::WithZeroLenBody {
                     caps.insert(1, CapSet { ty: 0x0009, body: vec![] });
+                }
+                if self.p.caps == CapsKind::InputWithoutScancodes {
+                    for c in caps.iter_mut().filter(|c| c.ty == 0x000D && c.body.len() >= 2) {
+                        c.body[0] &= !0x01;
+                    }
+                }
+                if self.p.caps == CapsKind::NoInputCapability {
+                    caps.retain(|c| c.ty != 0x000D);
                 }
                 caps
             }
